@@ -1,6 +1,7 @@
 package main
 
 import (
+	"bytes"
 	"errors"
 	"fmt"
 	"io"
@@ -156,9 +157,56 @@ func c17Run(o *out, input string) {
 		o.emit(input, c17Call(f[1], atoi(f[2]), unhx(f[3]), unhx(f[4]), unints(f[5]), f[6] == "1"))
 	case "C17S":
 		o.emit(input, c17Seq(f[1], atoi(f[2]), unhx(f[3]), unints(f[4]), f[5] == "1", len(f) > 6 && f[6] == "R"))
+	case "C17W":
+		o.emit(input, c17Write(f[1], atoi(f[2]), atoi(f[3]), atoi(f[4])))
 	default:
 		panic("bad C17 case " + input)
 	}
+}
+
+// recWriter records what WriteNext hands to the writer; its failAt-th Write (1-based, 0 = never) fails.
+type recWriter struct {
+	buf    []byte
+	calls  int
+	failAt int
+}
+
+func (w *recWriter) Write(p []byte) (int, error) {
+	w.calls++
+	if w.calls == w.failAt {
+		return 0, errors.New("write refused")
+	}
+	w.buf = append(w.buf, p...)
+	return len(p), nil
+}
+
+func c17Msg(size, fill int) []byte {
+	b := make([]byte, size)
+	for i := range b {
+		b[i] = byte(fill + i)
+	}
+	return b
+}
+
+// c17Write runs one WriteNext call on a message of the given size (byte i = fill+i) and reports the bytes
+// that reached the writer and whether an error was returned.
+func c17Write(codec string, size, fill, failAt int) (obs string) {
+	w := &recWriter{failAt: failAt}
+	defer func() {
+		if p := recover(); p != nil {
+			obs = fmt.Sprintf("%s panic", hx(w.buf))
+		}
+	}()
+	msg := c17Msg(size, fill)
+	keep := append([]byte(nil), msg...)
+	_, err := codecOf(codec).WriteNext(w, msg)
+	if !bytes.Equal(keep, msg) {
+		return fmt.Sprintf("%s clobbered", hx(w.buf))
+	}
+	if err != nil {
+		return fmt.Sprintf("%s err", hx(w.buf))
+	}
+	return fmt.Sprintf("%s nil", hx(w.buf))
 }
 
 func writeAll(codec string, msgs [][]byte) []byte {
@@ -231,6 +279,36 @@ func c17Gen(o *out, r *rng, tier string) {
 		}
 	}
 
+	// the write side: the frame WriteNext produces for every message size of a range and at the boundaries of
+	// the length prefix (1 / 2 / 3 bytes), and a writer that refuses
+	write := func(codec string, size, fill, failAt int) {
+		o.count("write/" + codec)
+		c17Run(o, fmt.Sprintf("C17W %s %d %d %d", codec, size, fill, failAt))
+	}
+	wmax := 700
+	if thorough {
+		wmax = 4200
+	}
+	for _, codec := range []string{"p", "j", "b"} {
+		for sz := 0; sz <= wmax; sz++ {
+			if codec != "p" && sz > 300 && sz%16 != 0 {
+				continue
+			}
+			write(codec, sz, r.intn(256), 0)
+		}
+		for _, sz := range []int{1023, 1024, 1025, 4095, 4096, 4097, 8191, 8192, 16383, 16384, 16385, 32768, 65535, 65536} {
+			write(codec, sz, r.intn(256), 0)
+		}
+		if thorough {
+			for _, sz := range []int{1 << 17, 2097151, 2097152, 2097153} {
+				write(codec, sz, r.intn(256), 0)
+			}
+		}
+		for _, sz := range []int{0, 1, 5, 127, 128, 255, 256, 300, 5000} {
+			write(codec, sz, 7, 1)
+			write(codec, sz, 7, 2)
+		}
+	}
 	// one buffer kept for a whole stream of messages of very different sizes (the capacity left over
 	// from a large message meets a medium one that is only partly buffered)
 	seqR := func(codec string, limit int, data []byte, sched []int, eofwd bool) {
